@@ -65,6 +65,7 @@ def mk (steps : Nat) (lists : Bool) (l r : List Rat) : Except Err PB := do
   let r ← boundSteps steps r
   if l.length ≠ r.length then .error .Assertion
   else if !(isIncreasing l) || !(isIncreasing r) then .error .Other
+  else if (l.zip r).any (fun p => decide (p.1 > p.2)) then .error .Other   -- bounds must not cross
   else .ok ⟨l, r⟩
 
 /-! ## elementary binary operations on reals -/
